@@ -89,6 +89,26 @@ func (p *Program) census(prop string) []*Obligation {
 							}
 						}
 					case "writers":
+						if st, ok := in.(*ssa.Store); ok && strings.HasPrefix(cs.Target, "global ") {
+							// "global X": a store into the package-level variable X (or into a field or element
+							// of it) outside the package initialiser. Stores through a pointer that was taken
+							// earlier are not tracked (input assumption: parameters do not point at globals).
+							a := st.Addr
+							for {
+								if fa, ok := a.(*ssa.FieldAddr); ok {
+									a = fa.X
+									continue
+								}
+								if ia, ok := a.(*ssa.IndexAddr); ok {
+									a = ia.X
+									continue
+								}
+								break
+							}
+							if g, ok := a.(*ssa.Global); ok && g.Pkg == fn.Pkg && g.Name() == strings.TrimPrefix(cs.Target, "global ") {
+								hit = true
+							}
+						}
 						if st, ok := in.(*ssa.Store); ok {
 							if fa, ok := st.Addr.(*ssa.FieldAddr); ok {
 								stt := fa.X.Type().Underlying().(*types.Pointer).Elem()
